@@ -222,7 +222,15 @@ func doRequestFollowRedirectsBuffer(ctx context.Context, req *protocol.Request, 
 	// In HTTP2 scenario, client use stream mode to create a request and its body is in body stream.
 	// In HTTP1, only client recv body exceed max body size and client is in stream mode can trig it.
 	body = resp.Body()
-	bodyBuf.B = oldBody
+	// A reset of the response during the exchange (a redirect with a body, a body read
+	// that failed half way) hands its body buffer back to the pool: bodyBuf may belong
+	// to another response by now and must not be written to. Whichever buffer the
+	// response owns at this point gives its bytes to the caller and goes back empty.
+	if bb := resp.BodyBuffer(); bb == bodyBuf {
+		bb.B = oldBody
+	} else {
+		bb.B = nil
+	}
 	protocol.ReleaseResponse(resp)
 
 	return statusCode, body, err
